@@ -28,7 +28,7 @@ PID = "C11"
 # real objects
 def imports():
     import holopy as hp
-    from holopy.scattering import Sphere, Spheres, RigidCluster, MieLens, Mie
+    from holopy.scattering import Sphere, Spheres, RigidCluster, MieLens, Mie, Scatterers
     from holopy.inference import prior, AlphaModel, ExactModel
     from holopy.core.mapping import read_map
     return locals()
@@ -121,6 +121,25 @@ class TSpheres2(Template):
         s = _scat_from(model, pars)
         a, b = s.scatterers
         return (a.n, a.r, b.n, b.r)
+
+
+class TNested(Template):
+    name = "scatterers[sphere(n), spheres[sphere(r), sphere(n,r)]] (nested)"
+    nsites = 4
+    scat_sites = 4
+
+    def build(self, v):
+        inner = Spheres([Sphere(n=1.45, r=v[1], center=(20.0, 0.0, 10.0)),
+                         Sphere(n=v[2], r=v[3], center=(0.0, 20.0, 10.0))], warn=False)
+        sc = H["Scatterers"]([Sphere(n=v[0], r=0.5, center=(0.0, 0.0, 10.0)), inner])
+        return AlphaModel(sc, alpha=0.8, medium_index=1.33, illum_wavelen=0.66,
+                          illum_polarization=(1, 0), noise_sd=0.1, theory=H["Mie"]())
+
+    def observe(self, model, pars):
+        s = _scat_from(model, pars)
+        a, inner = s.scatterers
+        b, c = inner.scatterers
+        return (a.n, b.r, c.n, c.r)
 
 
 class TLayered(Template):
@@ -250,6 +269,26 @@ class TRigid(Template):
         return tuple(out)
 
 
+class TRigidAxis(TRigid):
+    name = "RigidCluster(spheres n0,n1; rotation (alpha, 0, 0); translation x)"
+
+    def build(self, v):
+        sc = RigidCluster(self._spheres(v[0], v[1]), rotation=(v[2], 0.0, 0.0), translation=(v[3], 1.0, 10.0))
+        return ExactModel(sc, medium_index=1.33, illum_wavelen=0.66,
+                          illum_polarization=(1, 0), noise_sd=0.1, theory=H["Mie"]())
+
+    def expect(self, v):
+        # rotation about z by alpha, written out (not through the library's own rotated())
+        import math
+        ca, sa = math.cos(v[2]), math.sin(v[2])
+        out = []
+        for n_, c in ((v[0], (0.0, 0.0, 0.0)), (v[1], (2.0, 0.0, 0.0))):
+            dx, dy = c[0] - 1.0, c[1]            # a rigid cluster turns about its centroid (1, 0, 0)
+            x, y = 1.0 + ca * dx - sa * dy, sa * dx + ca * dy
+            out += [n_, 0.5, x + v[3], y + 1.0, c[2] + 10.0]
+        return tuple(out)
+
+
 class TSphere6(Template):
     name = "sphere(n,r,x,y,z)+alpha"
     nsites = 6
@@ -313,7 +352,7 @@ class TMixed6(Template):
 
 
 TEMPLATES = {4: [TSphere(), TSphereOpticsAlpha(), TSpheres2(), TLayered(), TComplex(),
-                 TArith(), TChannels(), TTheory(), TRigid()],
+                 TArith(), TChannels(), TTheory(), TRigid(), TRigidAxis(), TNested()],
              6: [TSphere6(), TSpheres3(), TMixed6()]}
 
 
